@@ -3,10 +3,16 @@ import itertools, random
 from .. import core, hist, world as W, ref
 from .c01 import fix_disagreements
 
-MODULES = ['DsdVerif.Props.C10']
-GEN_FILES = ['Dunders']
+MODULES = ['DsdVerif.Props.C10', 'DsdVerif.Props.PySetters']
+GEN_FILES = ['Dunders', 'PySetters', 'PyComplexS', 'PySetObjects']
 THEOREM_NAMES = ['lexLt_strictTotal', 'strLt_strictTotal', 'ckeyLt_strictTotal', 'mkeyLt_strictTotal', 'memLt_strictTotal', 'rkeyLt_strictTotal_on_typed', 'le_total', 'le_trans', 'lt_iff_le_not_le', 'le_antisymm', 'dom_eq_hash', 'sortBy_perm', 'sortBy_sorted', 'sortBy_perm_invariant']
-THEOREMS = ['Dsd.C11.' + t for t in THEOREM_NAMES] + ['Dsd.C10.dunders_coherent', 'Dsd.C10.dunder_keys']
+THEOREMS = ['Dsd.C11.' + t for t in THEOREM_NAMES] + ['Dsd.C10.dunders_coherent', 'Dsd.C10.dunder_keys'] + ['Dsd.PySetters.' + t for t in [
+    # the identity-protecting setters of all five classes as written in the source (translator/pysetters.py -> Gen/PySetters.lean): each refuses
+    # EVERY value with SingletonError and leaves the object unchanged
+    'py_DomainS_name_set_refused', 'py_DomainS_length_set_refused', 'py_ComplexS_name_set_refused', 'py_ComplexS_canonical_form_set_refused',
+    'py_MacrostateS_complexes_set_refused', 'py_MacrostateS_representative_set_refused', 'py_ReactionS_reactants_set_refused',
+    'py_ReactionS_products_set_refused', 'py_ReactionS_rtype_set_refused', 'py_ReactionS_name_set_refused', 'rtype_in_RTYPES_refused',
+    'py_DomainS_getters', 'py_identity_readonly', 'py_getters_unaffected']]
 ASSUMPTIONS = [
     'the comparison operators of the five classes are functions of the canonical forms; they are modelled by strict orders on the keys '
     '(Model/Objects.lean: strLt, ckeyLt, mkeyLt, memLt, rkeyLt, leOf) and tied to __eq__/__lt__/__le__/__hash__ by the `cmp` stream',
@@ -25,6 +31,7 @@ MANIFEST = {
             'reactions differing only in type; coherence laws are also checked directly on all pairs and triples; every identity '
             'attribute is assigned (must raise, object unchanged) and every handed-out view is mutated and re-read.',
     'note': 'View aliasing and setter behaviour are decided by the oracle on the real objects only.',
+    'source_derived': "The clause 'name, length, canonical form and members cannot be reassigned - the attempt raises and leaves the object unchanged' is proved of the code as written: translator/pysetters.py transcribes the ten protected setters of the five classes from the working tree (Gen/PySetters.lean, on the records of the translated getters); PySetters.py_identity_readonly (for every (class, attribute) pair and EVERY value the setter raises SingletonError and the object is unchanged, so every getter answers as before: py_getters_unaffected) - a setter turned into an assignment is translated as that assignment and the proof fails; stream identity-setters.source-derived on real objects of all five classes.",
     'technique': 'Lean 4 proofs of strict-total-order laws for lexicographic key orders + coherence of the translated comparison methods; correspondence check on all pairs; oracle for setters/aliasing',
 }
 
@@ -243,6 +250,8 @@ def run(res, proof):
                         break
         res.count('stale_twins_' + kind, len(twins))
         del olds, twins
+    from .pysetters_stream import source_derived_pysetters
+    source_derived_pysetters(res, proof)      # the read-only setters as translated from the working tree against the real objects
     for l in hl[:8]:
         res.sample(l)
     res.rule = ('populations: 34 domains (incl. numbered / mixed names and other lengths in other registries), %d complexes (incl. pairs differing only in structure and copies in a subclass registry), %d '
